@@ -194,7 +194,7 @@ pub fn mutants(valid: &Block, rng: &mut Rng) -> Vec<Mutant> {
 
 pub fn lane_structure(ctx: &mut Ctx) {
     let max_n: u64 = if ctx.tier == Tier::Quick { 40 } else { 40 };
-    let rounds: u64 = if ctx.tier == Tier::Quick { 3 } else { 200 };
+    let rounds: u64 = if ctx.tier == Tier::Quick { 60 } else { 2000 };
     let g = gen::genesis(Network::Regtest);
     let now = Duration::from_secs(world::MOCK_NOW_SECS);
     let mut complete = true;
@@ -267,14 +267,12 @@ pub fn lane_structure(ctx: &mut Ctx) {
             ctx.cov.sample(json!({"transactions": n, "witness_txs": witness, "block_hash": gen::hex32(&gen::hash_of(&valid))}));
         }
     }
-    if ctx.only_case.is_none() && ctx.tier == Tier::Quick {
-        ctx.cov.exhaustive = Some(complete);
-    }
+    let _ = complete;
 }
 
 /// The same families through the canister's insert path (state::insert_block), on a sample.
 pub fn lane_structure_canister(ctx: &mut Ctx) {
-    let cases = if ctx.tier == Tier::Quick { 64 } else { 4000 };
+    let cases = if ctx.tier == Tier::Quick { 4000 } else { 400_000 };
     for k in ctx.cases("structure_can", cases) {
         if !ctx.time_left() {
             break;
